@@ -81,7 +81,16 @@ class PTable(EngineBase):
         """C05: arbitrary parent links and start-time orderings."""
         procs = world["procs"]
         pids = [p["pid"] for p in procs]
-        mode = rng.choice(["forest", "forest", "loops", "wild", "chain"])
+        mode = rng.choice(["forest", "forest", "loops", "wild", "chain",
+                           "bushy", "bushy"])
+        if mode == "bushy" and len(procs) >= 3:
+            # one parent with several children (and a grandchild)
+            procs.sort(key=lambda p: p["starttime"])
+            top = procs[0]["pid"]
+            for j, p in enumerate(procs[1:]):
+                p["ppid"] = top if j != 2 else procs[1]["pid"]
+            world["bushy_top"] = world["pool"].index(top)
+            return
         for i, p in enumerate(procs):
             if mode == "forest":
                 continue
@@ -256,7 +265,12 @@ class PTable(EngineBase):
         in_rate = rng.choice([0.0, 0.0, 0.1, 0.25])
         if prop == "C05" and rng.random() < 0.5:
             in_rate = 0.0
+        if "bushy_top" in world and rng.random() < 0.7:
+            in_rate = 0.35
+            ev_rate = min(ev_rate, 0.15)
         # start with a few handles so that ops have targets
+        if "bushy_top" in world:
+            ops.append({"op": "new", "slot": world["bushy_top"]})
         for i in range(rng.randrange(1, 4)):
             if prop in ("C01", "C02", "C05"):
                 ops.append({"op": "new", "slot": rng.randrange(64)})
@@ -270,6 +284,8 @@ class PTable(EngineBase):
                 inside.append({"op_id": len(ops) - 1,
                                "n": rng.choice([0, 1]) if op["op"] in (
                                    "sig", "set") else
+                               rng.randrange(2, 40) if op["op"] == "children"
+                               and rng.random() < 0.6 else
                                rng.choice([0, 0, 1, 1, 2, 3, 5]),
                                "ev": self.gen_event(rng, world, prop)})
         for j, op in enumerate(ops):
@@ -309,8 +325,8 @@ class PTable(EngineBase):
         prop = plan["prop"]
         world = plan["world"]
         k = self.make_kernel(W.boot, dict(
-            {kk: vv for kk, vv in world.items() if kk not in ("pool",
-                                                               "overlap")},
+            {kk: vv for kk, vv in world.items() if kk not in (
+                "pool", "overlap", "bushy_top")},
             max_acc=30000))
         k.keep_snaps = True
         self.install(k)
@@ -1089,6 +1105,24 @@ class PTable(EngineBase):
                 if len(set(got)) != len(got):
                     self._V(st, "C05.children_sound", tags + ["duplicates"],
                             api, "duplicates in %r" % got)
+                # completeness under movement: a process that was a
+                # (reference) child/descendant in EVERY snapshot of the
+                # call, as the same incarnation, must be returned
+                req = None
+                for s in allsn:
+                    if h.pid not in s or s[h.pid][0] != h.inc:
+                        req = set()
+                        break
+                    w = {p_: s[p_][0] for p_ in self._ref_children(
+                        s, h.pid, s[h.pid][5], op["rec"])}
+                    req = w if req is None else {
+                        p_: i_ for p_, i_ in req.items() if w.get(p_) == i_}
+                missing = sorted(set(req or ()) - set(got))
+                if missing:
+                    self._V(st, "C05.children_complete", tags + ["moving"],
+                            api, "%s of pid %d -> %r: %r stayed its "
+                            "descendants for the whole call but are missing"
+                            % (api, h.pid, sorted(got), missing))
                 for pid in got:
                     if pid == h.pid:
                         continue
